@@ -27,6 +27,7 @@ type FuncResult struct {
 	Contract  *Contract
 	ParamSyms map[string]string
 	Fx        *FuncCtx
+	UFDecls   map[string]string
 }
 
 func (e *Engine) prepareContract(ct *Contract) (*ssa.Function, error) {
@@ -202,6 +203,7 @@ func (e *Engine) verify(ct *Contract) (res *FuncResult) {
 		}
 		res.Obls = fx.obls
 		res.Fx = fx
+		res.UFDecls = fx.ufDecls
 		res.Paths = fx.npaths
 		res.Decls = fx.decls
 		res.DeclOrd = fx.declOrd
